@@ -141,6 +141,7 @@ def parseTick (s : String) : Option Tick :=
     match kv.splitOn "=" with
     | ["n", "idle"] => some { t with net := .idle }
     | ["n", "eof"] => some { t with net := .eof }
+    | ["n", "err"] => some { t with net := .eof }          -- connection reset: recv raises, handled as end of stream
     | ["n", "part"] => some { t with net := .data [] }     -- bytes that do not complete a PDU
     | ["n", v] => ((v.splitOn "+").mapM parseRx).map fun l => { t with net := .data l }
     | ["u", v] => if v = "" then some t else ((v.splitOn "+").mapM parseTx).map fun l => { t with enq := l }
